@@ -303,11 +303,21 @@ def opC10Query : List String → Res
 /-- tie G (panic-aware): `baseHandler.handleCommand` and `config.DeserializeOptions` as translated from the working tree, on
     the same command: the translated decoder panics exactly when the model says so, and where options are decoded the
     translated `DeserializeOptions` yields the model's line context and option map -/
+def ext10 : Go.Ext :=
+  { parseFloat := fun _ => (0, some (b!"syntax")),
+    atoi := fun t => match atoi t with | some n => (n, none) | none => (0, some (b!"syntax")),
+    base64Decode := fun t => match env10.b64dec t with | some d => (d, none) | none => ([], some (b!"illegal base64 data")) }
+
+/-- the translated server `Write` on the whole stream: all bytes taken, the tail after the last ';' left in the write
+    buffer, one started command per command the model decodes -/
+def c10writeAgrees (stream : Bytes) : Bool :=
+  let decoded := ((serverCommands stream).map (decodeCommand env10)).filter (fun r => match r with | .ok _ => true | _ => false)
+  match Gen.Decode.baseHandler.Write ext10 {} stream with
+  | .ok (h, n, none) => n == (stream.length : Int) && some h.writeBuf == (splitOnByte SEMI stream).getLast? && h.started.length == decoded.length
+  | _ => false
+
 def c10translatedAgrees (cmd : Bytes) : Bool :=
-  let ext : Go.Ext :=
-    { parseFloat := fun _ => (0, some (b!"syntax")),
-      atoi := fun t => match atoi t with | some n => (n, none) | none => (0, some (b!"syntax")),
-      base64Decode := fun t => match env10.b64dec t with | some d => (d, none) | none => ([], some (b!"illegal base64 data")) }
+  let ext := ext10
   let model := decodeCommand env10 cmd
   let gen := Gen.Decode.baseHandler.handleCommand ext {} cmd
   let panicSame := model.isPanic == (match gen with | .ok _ => false | _ => true)
@@ -335,6 +345,7 @@ def opC10Decode : List String → Res
     | some stream =>
       let rs := (serverCommands stream).map (decodeCommand env10)
       if !(serverCommands stream).all c10translatedAgrees then { m := "TRANSLATED-DECODER-DIFFERS-FROM-MODEL", s := "no-panic" } else
+      if !(rs.any (·.isPanic)) ∧ !c10writeAgrees stream then { m := "TRANSLATED-WRITE-DIFFERS-FROM-MODEL", s := "no-panic" } else
       match rs.find? (·.isPanic) with
       | some (.panic p) => { m := "PANIC " ++ p, s := "no-panic" }
       | _ =>
